@@ -803,6 +803,8 @@ class Interp:
         if not isinstance(arr, Arr):
             self.event("unsupported", target, "store into %r" % (arr,))
             return
+        if isinstance(arr, SymArr) or arr.meta.get("param"):
+            self.event("param-mutation", target, "store into the caller's array %s" % (arr.meta.get("param") or arr.name))
         idx = self.eval_index(target.slice, env)
         new = self.np.store(self, arr, idx, v, target, env)
         if new is not None:
